@@ -7,6 +7,7 @@ import (
 	"math"
 	"reflect"
 	"strings"
+	"time"
 
 	restful "github.com/emicklei/go-restful/v3"
 
@@ -191,6 +192,14 @@ func runC16(x *Ctx) {
 	cfg := &ChainCfg{Provider: sc.Provider, WCap: sc.WCap, RCap: sc.RCap}
 	installProvider(s, cfg)
 	restful.DefaultRequestContentType(sc.Default)
+	for _, cl := range sc.Clients {
+		for _, r := range cl {
+			if r.Size >= 1000000 {
+				// decoding megabytes in one step, under the race detector, on a loaded machine: not a stall
+				s.Stall = 100 * time.Second
+			}
+		}
+	}
 
 	byID := map[int]*c16Req{}
 	var all []*c16Req
